@@ -11,10 +11,12 @@ import (
 )
 
 type gen struct {
-	r     *hlib.SplitMix64
-	w     *hlib.Out
-	maxpl int
-	i     int
+	r        *hlib.SplitMix64
+	w        *hlib.Out
+	maxpl    int
+	huge     bool
+	i        int
+	maxsweep int
 }
 
 var tcpFlagNames = []string{"fin", "syn", "rst", "psh", "ack", "urg", "ece", "cwr", "ns"}
@@ -351,6 +353,38 @@ func (g *gen) all(n int) {
 	}
 	for i := 0; i < 12; i++ {
 		g.arp()
+	}
+	if g.huge {
+		// thorough tier: both link modes for every flag set, every payload length of the regular sweep
+		for fl := 0; fl < 1024; fl++ {
+			c := g.base("tcp", "tcp-flagset-x-link")
+			c.Flags = fl % 512
+			if fl >= 512 {
+				g.vpn(c)
+			}
+			g.emit(c)
+		}
+		for _, kind := range []string{"udp", "icmp"} {
+			for l := 71; l <= g.maxsweep; l++ {
+				c := g.base(kind, kind+"-len-sweep")
+				g.setPayload(c, l)
+				if l%7 == 3 {
+					g.vpn(c)
+				}
+				g.emit(c)
+			}
+		}
+		// payloads around and beyond what fits an IPv4 datagram: the 16-bit length fields wrap
+		for _, kind := range []string{"udp", "icmp"} {
+			for _, l := range []int{65506, 65507, 65508, 65535, 65536, 70001} {
+				c := g.base(kind, kind+"-huge")
+				g.setPayload(c, l)
+				if l%2 == 1 {
+					g.vpn(c)
+				}
+				g.emit(c)
+			}
+		}
 	}
 	for i := 0; i < n; i++ {
 		switch k := g.r.Intn(20); {
